@@ -1,6 +1,6 @@
 (* C12 - Gamma-cat and gamma-k follow their definition.  Proofs in theories/Gamma/GammaKProofs.v. *)
 From Coq Require Import List Arith ZArith QArith Bool Permutation.
-From PGA Require Import Gamma.GammaK Gamma.GammaKProofs.
+From PGA Require Import Gamma.GammaK Gamma.GammaKProofs Gamma.GammaKSlots.
 Import ListNotations.
 Local Open Scope Q_scope.
 
@@ -38,6 +38,13 @@ Proof. split; [exact (gamma_of_zero_obs chance) | exact (gamma_cat_of_zero_obs c
 (* order of unitary alignments is irrelevant *)
 Theorem C12_order_independent alpha de cat al al' : Permutation al al' -> gk_loop alpha de cat al == gk_loop alpha de cat al'.
 Proof. exact (gk_loop_perm alpha de cat al al'). Qed.
+
+(* ... and so is the order in which the annotators' slots are listed inside each unitary alignment (pair values symmetric) *)
+Theorem C12_slot_order_independent alpha de cat (l : list (list nat * list (option Z) * (nat -> nat -> Q * Q))) :
+  (forall s slots pv, In (s, slots, pv) l -> Permutation s (seq 0 (length slots)) /\ forall i j, pv i j = pv j i) ->
+  gk_loop alpha de cat (map (fun x => perm_ua (fst (fst x)) (snd (fst x)) (snd x)) l) ==
+  gk_loop alpha de cat (map (fun x => ua_fun (snd (fst x)) (snd x)) l).
+Proof. exact (gk_loop_slot_perm alpha de cat l). Qed.
 
 (* non-vacuity: three annotators, one tuple with 3 real units (weights 1/2) and one with an empty slot *)
 Example C12_example :
